@@ -96,6 +96,22 @@ CHECKS = {
               "not shuffle, which C05 does not forbid)."),
         technique="TLA+ spec (PoolMC, Sampler) model-checked with TLC; trace validation of recorded call histories by total monitor",
     ),
+    "C14": dict(
+        category="model_checking",
+        text=("TLC exhausts Iterative (cursor arithmetic of the grow-and-retest loop with a free growth policy and a free number of "
+              "passing samples per test; N<=7, n_requested<=3) for BudgetRespected, NoRowTwice, AtMostRequested, ExactlyWhenEnough, "
+              "TooSmallRaises and termination under weak fairness; Apalache discharges the inductive invariant over unbounded "
+              "integers (Init=>IndInv, IndInv/\\Next=>IndInv', IndInv=>Safety). Every request TLC enumerates (library size, "
+              "max_prior_samples, n_requested, init_batch_size, four uniform profiles) is run on the real sampler on alternating "
+              "paths; those executions and seeded random ones (libraries to 400/5000 rows, -inf likelihoods) are validated by the "
+              "SamplerTrace monitor: rows evaluated each round in order and never twice, within the budget, one uniform per "
+              "accumulated likelihood per round, acceptance by the C02 rule against the maximum of everything evaluated so far, "
+              "at most / exactly n_requested rows x n_linear_samples, JokerSamples or an exception."),
+        design_ref="DESIGN.md section 3 C14",
+        note=("Trusted: TLC, Apalache, and the C02 trusted base for the rule. The growth policy is deliberately unconstrained; whether the "
+              "loop stops early while budget remains is not part of the property."),
+        technique="TLA+ spec (Iterative) model-checked with TLC + Apalache inductive invariant; replay of TLC-enumerated requests; trace validation by total monitor",
+    ),
 }
 
 NOT_YET = "check not built yet (build in progress; see DESIGN.md section 7)"
